@@ -269,8 +269,8 @@ theorem storeStep_exact (B : HBlock) (env : Nat → Content) (cap : Nat) (hwf : 
     the delivered set `D` to the state of `D ∪ {s}`, and answers `resOf B D s`. -/
 theorem addShred_exact (B : HBlock) (env : Nat → Content) (cap : Nat) (hwf : B.WF env cap)
     (D : DSet) (b : BlockData) (s : Shred) (hg : Exact B cap D D D b) (hs : B.Honest s) :
-    Exact B cap (dadd D s) (dadd D s) (dadd D s) (addShred env b s).1 ∧ (addShred env b s).2 = resOf B D s := by
-  unfold addShred
+    Exact B cap (dadd D s) (dadd D s) (dadd D s) (addShredCore env b s).1 ∧ (addShredCore env b s).2 = resOf B D s := by
+  unfold addShredCore
   obtain ⟨b1, hc, hg1⟩ := cacheStep_exact B cap D b s hg hs
   rw [hc]
   simp only
